@@ -4,6 +4,7 @@ import (
 	"bytes"
 	"crypto/elliptic"
 	"fmt"
+	pecdsa "github.com/cloudflare/pat-go/ecdsa"
 	"math/big"
 
 	"github.com/cloudflare/pat-go/tokens/type3"
@@ -164,7 +165,80 @@ func runC08(c0 *h.Ctx) {
 					seenIdx[string(idx)] = who
 				}
 			}
-			// two requests of ONE client in flight at the attester: both verified first, then both finalized (each with its
+			// an index key for which the unblinded point [b_o d]G has an X coordinate with TWO leading zero bytes (one in
+			// 65536; searched with the model's exponent and crypto/elliptic): fixed-width encodings must keep both
+			if ci == 0 && part == 0 {
+				var ikShort []byte
+				for trial := 0; trial < 400000 && ikShort == nil; trial++ {
+					cand := sha256Bytes(cat(secret, h.U64(uint64(trial))))
+					cand = cat(cand, cand[:16])
+					f, err := pecdsa.VerifHashBlind(curve, &pecdsa.PrivateKey{D: new(big.Int).SetBytes(cand)}, ctxIssuerBlind)
+					if err != nil {
+						break
+					}
+					e := new(big.Int).Mul(f, new(big.Int).SetBytes(secret))
+					e.Mod(e, N)
+					x, _ := curve.ScalarBaseMult(e.Bytes())
+					if x.BitLen() <= 368 {
+						ikShort = cand
+					}
+				}
+				c.Notes["short_x_index_key_found"] = ikShort != nil
+				if ikShort != nil {
+					priv, _ := pecdsa.CreateKey(curve, ikShort)
+					env.issuer.AddOriginWithIndexKey("short-x.example", priv)
+					_, wantIdx := c08Expect(c, secret, ikShort)
+					for rep := 0; rep < 3; rep++ {
+						bl := rnd(c, 48)
+						stS, err := env.request(client, rnd(c, 9), rnd(c, 32), bl, "short-x.example")
+						if err != nil {
+							continue
+						}
+						_, brkS, err := env.issuer.Evaluate(stS.Request().Marshal())
+						if err != nil {
+							continue
+						}
+						a := type3.NewRateLimitedAttester(newRecCache())
+						a.VerifyRequest(*stS.Request(), bl, stS.ClientKey(), nil)
+						idxS, err := a.FinalizeIndex(stS.ClientKey(), bl, brkS, []byte("x"))
+						c.Count("index:unblinded-point-with-short-x", 1, fmt.Sprint(rep))
+						if err != nil || !bytes.Equal(idxS, wantIdx) {
+							c.Violation("the ID equals the closed form when the blinded key's X coordinate has two leading zero bytes", map[string]any{"index_key": h.Hex(ikShort), "request": rep})
+						}
+					}
+				}
+			}
+			// an origin whose index key is REPLACED on the live issuer (after it has served requests): the ID follows the
+			// key in force — it depends on the origin's index key, not on the key the name once had
+			if ci == 0 {
+				rotName := "rotated.example"
+				for gen := 0; gen < 3; gen++ {
+					ik := rnd(c, 48)
+					priv, _ := pecdsa.CreateKey(curve, ik)
+					env.issuer.AddOriginWithIndexKey(rotName, priv)
+					_, wantIdx := c08Expect(c, secret, ik)
+					for rep := 0; rep < 2; rep++ {
+						bl := rnd(c, 48)
+						stR, err := env.request(client, rnd(c, 9), rnd(c, 32), bl, rotName)
+						if err != nil {
+							continue
+						}
+						_, brkR, err := env.issuer.Evaluate(stR.Request().Marshal())
+						if err != nil {
+							c.Violation("an honest request is refused by the issuer", map[string]any{"origin": rotName})
+							continue
+						}
+						a := type3.NewRateLimitedAttester(newRecCache())
+						a.VerifyRequest(*stR.Request(), bl, stR.ClientKey(), nil)
+						idxR, err := a.FinalizeIndex(stR.ClientKey(), bl, brkR, []byte("x"))
+						c.Count("index:origin-index-key-replaced", 1, fmt.Sprint(gen, rep))
+						if err != nil || !bytes.Equal(idxR, wantIdx) {
+							c.Violation("the ID equals the closed form under the origin's CURRENT index key (key replaced on a live issuer)", map[string]any{"generation": gen, "request": rep})
+						}
+					}
+				}
+			}
+			// two requests of ONE client in flight at the attester			// two requests of ONE client in flight at the attester: both verified first, then both finalized (each with its
 			// own blind), in both orders — the ID must not depend on which request the attester saw last
 			for oi := 0; oi < 2; oi++ {
 				o := origins[oi]
